@@ -7,7 +7,12 @@
 (* linear scan (exact integers), nothing the implementation claims about      *)
 (* distances is trusted - except `cd`, the distances kdtree reported, which    *)
 (* must equal the recomputed ones.                                            *)
-(* Events: reset | build(pts, bounding) | insert(p, bounding) |               *)
+(* The k-d trees are built over USER TYPES as well: build events say whether   *)
+(* the collection is a Bounder (cb), build / insert events whether the          *)
+(* elements are Extenders (ee); the mode of the tree ("empty" "on" "off"        *)
+(* "stale") follows SpatialIndex.tla BuildMode / InsertMode and decides what    *)
+(* the stored volumes must satisfy (VolumesOK).                                 *)
+(* Events: reset | build(pts, bounding, cb, ee) | insert(p, bounding, ee) |     *)
 (*         query(impl, kind, q, k, r, res, cd) | contains(q, res) | tree(nodes)*)
 (*         | dobounded(lo, hi, res, stopped): the points kdtree.DoBounded       *)
 (*         visited for the closed box [lo, hi] (lo <= hi) must be, as a bag,   *)
@@ -17,23 +22,26 @@ EXTENDS SpatialIndex, TLCExt
 TraceLog == ndJsonDeserialize("trace.ndjson")
 
 VARIABLES l,      \* cursor
-          bmode   \* does the k-d tree record bounding volumes?
-tvars == <<built, ins, l, bmode>>
+          bmode,  \* does the k-d tree record bounding volumes?  "empty" | "on" | "off" | "stale"
+          rootbox \* observed: the root stores a volume (only a stale tree has the choice)
+tvars == <<built, ins, l, bmode, rootbox>>
 Ev == TraceLog[l]
 
 Reset == /\ l <= Len(TraceLog) /\ Ev.ev = "reset"
-         /\ built' = <<>> /\ ins' = <<>> /\ bmode' = FALSE /\ l' = l + 1
+         /\ built' = <<>> /\ ins' = <<>> /\ bmode' = "empty" /\ rootbox' = FALSE /\ l' = l + 1
 
 Build == /\ l <= Len(TraceLog) /\ Ev.ev = "build"
          /\ built' = Ev.pts /\ ins' = <<>>
-         /\ bmode' = Bounded(Len(Ev.pts), 0, Ev.bounding, FALSE)
-         /\ Ev.len = Len(Ev.pts) /\ Ev.bounded = bmode'
+         /\ bmode' = BuildMode(Ev.cb, Len(Ev.pts), Ev.bounding)
+         /\ Ev.len = Len(Ev.pts) /\ Ev.bounded = (bmode' = "on") /\ rootbox' = Ev.bounded
          /\ l' = l + 1
 
 InsertEv == /\ l <= Len(TraceLog) /\ Ev.ev = "insert"
             /\ ins' = Append(ins, Ev.p) /\ UNCHANGED built
-            /\ bmode' = IF Len(All) = 0 THEN Ev.bounding ELSE bmode      \* kdtree.Insert documentation
-            /\ Ev.len = Len(All) + 1 /\ Ev.bounded = bmode'
+            /\ bmode' = InsertMode(bmode, Ev.ee, Ev.bounding)            \* kdtree.Insert documentation
+            /\ (bmode = "empty") = (Len(All) = 0)
+            /\ Ev.len = Len(All) + 1 /\ rootbox' = Ev.bounded
+            /\ bmode' # "stale" => Ev.bounded = (bmode' = "on")
             /\ l' = l + 1
 
 \* the returned points, in the order returned, with distances recomputed by the scan
@@ -50,12 +58,13 @@ Query == /\ l <= Len(TraceLog) /\ Ev.ev = "query"
                      [] Ev.kind = "within"  -> R = Within(D, Ev.r)
                 /\ SubBag(Ev.res, All)
                 /\ Ev.impl = "kd" => Ev.cd = R
-         /\ UNCHANGED <<built, ins, bmode>> /\ l' = l + 1
+         /\ UNCHANGED <<built, ins, bmode, rootbox>> /\ l' = l + 1
 
 Contains == /\ l <= Len(TraceLog) /\ Ev.ev = "contains"
-            /\ ~bmode => Ev.res = TRUE
-            /\ (bmode /\ InBox(All, Ev.q)) => Ev.res = TRUE
-            /\ UNCHANGED <<built, ins, bmode>> /\ l' = l + 1
+            /\ ~rootbox => Ev.res = TRUE         \* "If no bounding has been constructed Contains returns true"
+            /\ bmode \in {"empty", "off"} => Ev.res = TRUE
+            /\ InBox(All, Ev.q) => Ev.res = TRUE  \* a stored volume contains every stored point, hence their minimal box
+            /\ UNCHANGED <<built, ins, bmode, rootbox>> /\ l' = l + 1
 
 DoBoundedEv == /\ l <= Len(TraceLog) /\ Ev.ev = "dobounded"
                /\ Leq(Ev.lo, Ev.hi)
@@ -63,21 +72,19 @@ DoBoundedEv == /\ l <= Len(TraceLog) /\ Ev.ev = "dobounded"
                     /\ Len(Ev.res) = Len(S)
                     /\ \A p \in Range(S) : PCnt(Ev.res, p) = PCnt(S, p)
                /\ Ev.stopped = FALSE
-               /\ UNCHANGED <<built, ins, bmode>> /\ l' = l + 1
+               /\ UNCHANGED <<built, ins, bmode, rootbox>> /\ l' = l + 1
 
 \* dump of the real tree: for every node its bounding box and the points of its subtree
 Tree == /\ l <= Len(TraceLog) /\ Ev.ev = "tree"
         /\ Len(Ev.nodes) = Len(All)
-        /\ \A i \in 1 .. Len(Ev.nodes) :
-             LET nd == Ev.nodes[i] IN
-             /\ nd.hasbox = bmode
-             /\ nd.hasbox => \A j \in 1 .. Len(nd.sub) : Leq(nd.lo, nd.sub[j]) /\ Leq(nd.sub[j], nd.hi)
+        /\ VolumesOK(bmode, Ev.nodes)
+        /\ Len(All) > 0 => Ev.nodes[1].hasbox = rootbox
         \* the root's subtree is the bag
         /\ Len(All) > 0 => /\ Len(Ev.nodes[1].sub) = Len(All)
                            /\ SubBag(Ev.nodes[1].sub, All)
-        /\ UNCHANGED <<built, ins, bmode>> /\ l' = l + 1
+        /\ UNCHANGED <<built, ins, bmode, rootbox>> /\ l' = l + 1
 
-TraceInit == built = <<>> /\ ins = <<>> /\ bmode = FALSE /\ l = 1
+TraceInit == built = <<>> /\ ins = <<>> /\ bmode = "empty" /\ rootbox = FALSE /\ l = 1
 TraceNext == Reset \/ Build \/ InsertEv \/ Query \/ Contains \/ Tree \/ DoBoundedEv
 TraceSpec == TraceInit /\ [][TraceNext]_tvars
 
